@@ -1638,8 +1638,46 @@ def copy_model(interp, args, kw):
     return _copy.copy(a)
 
 
+def deepcopy_model(interp, args, kw):
+    """copy.deepcopy on modelled heap values: every mutable reachable from the argument is duplicated once."""
+    memo = {}
+
+    def dc(a):
+        if isinstance(a, (SObj, SList, SDict)):
+            if id(a) in memo:
+                return memo[id(a)]
+        if isinstance(a, SObj):
+            new = interp.new_obj(a.cls, {}, a.name)
+            memo[id(a)] = new
+            for k, v in a.attrs.items():
+                new.attrs[k] = dc(v)
+            return new
+        if isinstance(a, SList):
+            new = interp.new_list([])
+            memo[id(a)] = new
+            new.items.extend(dc(x) for x in a.items)
+            if getattr(a, "is_set", False):
+                new.is_set = True
+            return new
+        if isinstance(a, SDict):
+            new = interp.new_dict({}, a.ordered)
+            memo[id(a)] = new
+            for k, (p, v) in a.entries.items():
+                new.entries[k] = (p, dc(v))
+            return new
+        if isinstance(a, SArr):
+            return arr_copy(interp, a)
+        if isinstance(a, tuple):
+            return tuple(dc(x) for x in a)
+        if isinstance(a, (Sym, int, float, str, bool, type(None))):
+            return a
+        return _copy.deepcopy(a)
+    return dc(args[0])
+
+
 def install(interp):
     m = interp.models
+    m[_copy.deepcopy] = deepcopy_model
     m[len] = builtin_len
     m[sum] = builtin_sum
     m[getattr] = builtin_getattr
